@@ -174,6 +174,131 @@ func collectorScenario(h hamt.Hasher, maxLen int) func(x *mc.X) {
 	}
 }
 
+// drainScenario: linear grow-then-drain histories with many keys (beyond what the closure
+// search can branch over): insert N keys in one of several orders, then remove all of them in one
+// of several orders; the value is compared with the reference after every single step. This is
+// where branch nodes with 17..32 children fill up, get more keys into occupied slots, and are
+// emptied again.
+func drainScenario(x *mc.X) {
+	hs := []hamt.Hasher{hamt.HasherByName("identity"), hamt.HasherByName("level2"), hamt.HasherByName("high-bits"),
+		{Name: "mod18", F: func(k int) uint32 { return uint32(k%18) | uint32(k/18)<<5 }},
+		{Name: "mod18-collide", F: func(k int) uint32 { return uint32(k % 18) }}}
+	h := hs[x.Choose(len(hs), "hasher")]
+	n := []int{18, 20, 36, 40, 72}[x.Choose(5, "keys")]
+	isSet := x.Bool("set")
+	order := func(kind, n int) []int {
+		ks := make([]int, 0, n)
+		switch kind {
+		case 0:
+			for i := 0; i < n; i++ {
+				ks = append(ks, i)
+			}
+		case 1:
+			for i := n - 1; i >= 0; i-- {
+				ks = append(ks, i)
+			}
+		default:
+			for i := 0; i < n; i += 2 {
+				ks = append(ks, i)
+			}
+			for i := 1; i < n; i += 2 {
+				ks = append(ks, i)
+			}
+		}
+		return ks
+	}
+	ins := order(x.Choose(3, "insertion order"), n)
+	del := order(x.Choose(3, "removal order"), n)
+	ref := map[int]int{}
+	m := immutable.Map[int, int](h)
+	s := immutable.Set[int](h)
+	hist := fmt.Sprintf("hasher %s, %d keys", h.Name, n)
+	check := func(step string) {
+		size, empty := m.Size(), m.IsEmpty()
+		if isSet {
+			size, empty = s.Size(), s.IsEmpty()
+		}
+		if size != len(ref) || empty != (len(ref) == 0) {
+			x.Fail("drain/Size", "%s after %s: Size()=%d IsEmpty()=%v, reference has %d keys", hist, step, size, empty, len(ref))
+		}
+		for k := 0; k < n; k++ {
+			_, ok := ref[k]
+			var got bool
+			if isSet {
+				got = s.Contains(k)
+			} else {
+				o := m.Get(k)
+				got = o.IsDefined()
+				if got && o.Get() != ref[k] {
+					x.Fail("drain/Get", "%s after %s: Get(%d)=%v, reference %d", hist, step, k, o, ref[k])
+				}
+			}
+			if got != ok {
+				x.Fail("drain/Get", "%s after %s: key %d present=%v, reference %v", hist, step, k, got, ok)
+			}
+		}
+		var keys []int
+		if isSet {
+			it := s.Iterator()
+			for i := 0; it.HasNext(); i++ {
+				if i > n+2 {
+					x.Fail("drain/Iterator-overrun", "%s after %s: iterator does not end", hist, step)
+				}
+				keys = append(keys, it.Next())
+			}
+		} else {
+			it := m.Iterator()
+			for i := 0; it.HasNext(); i++ {
+				if i > n+2 {
+					x.Fail("drain/Iterator-overrun", "%s after %s: iterator does not end", hist, step)
+				}
+				e := it.Next()
+				keys = append(keys, e.I1)
+				if v, ok := ref[e.I1]; !ok || v != e.I2 {
+					x.Fail("drain/Iterator-entry", "%s after %s: iterator yields (%d,%d), reference present=%v value=%d", hist, step, e.I1, e.I2, ok, v)
+				}
+			}
+		}
+		sort.Ints(keys)
+		var want []int
+		for k := range ref {
+			want = append(want, k)
+		}
+		sort.Ints(want)
+		if fmt.Sprint(keys) != fmt.Sprint(want) {
+			x.Fail("drain/Iterator", "%s after %s: iterator yields keys %v, reference %v", hist, step, keys, want)
+		}
+	}
+	for i, k := range ins {
+		if isSet {
+			s = s.Incl(k)
+		} else {
+			m = m.Updated(k, k+1)
+		}
+		ref[k] = k + 1
+		check(fmt.Sprintf("insert #%d (key %d)", i, k))
+	}
+	full := s
+	for i, k := range del {
+		if isSet {
+			s = s.Excl(k)
+		} else {
+			m = m.Removed(k)
+		}
+		delete(ref, k)
+		check(fmt.Sprintf("insert all, then removal #%d (key %d)", i, k))
+	}
+	if isSet {
+		// the drained set is the empty set for the binary operations as well
+		if !s.SubsetOf(full) || s.Diff(full).Size() != 0 || full.Intersect(s).Size() != 0 || full.Diff(s).Size() != n {
+			x.Fail("drain/binary", "%s: the drained set does not behave as the empty set: SubsetOf(full)=%v Diff(full).Size=%d full.Intersect(drained).Size=%d full.Diff(drained).Size=%d",
+				hist, s.SubsetOf(full), s.Diff(full).Size(), full.Intersect(s).Size(), full.Diff(s).Size())
+		}
+	}
+	x.Observe(h.Name, n, isSet)
+	x.NonTrivial()
+}
+
 func main() {
 	mc.Main("C03", func(r *mc.Registry) {
 		r.Rule = "explicit-state search to closure per configuration (kind, hasher, ballast size, constructor): a state is a live fp.Map/fp.Set, transitions are the real operations over 5 active keys x 2 values (Updated/Removed/Removed(k1,k2)/UpdatedWith{set,clear,keep}/Concat; Incl/Excl/Concat; Diff/Intersect/SubsetOf between all pairs of the first 160 reached sets), dedup key = reflection dump of the structure + reference content; every observation (Size/IsEmpty/Get/Contains over active+ballast+never-inserted+hash-colliding probe keys, Iterator/Keys/Values drained) is compared with a Go map in every state, and again for every version at the end of the search. Builder/ToMap/ToSet histories are enumerated statelessly. Non-trivial = a configuration that reached more than one state / a builder history with >= 2 adds; distinct = distinct (configuration, states, transitions) outcomes."
@@ -218,6 +343,7 @@ func main() {
 				r.Seq("search/"+cfg.Name(), func(x *mc.X) { hamt.Search(x, cfg) }).NoShard = true
 			}
 		}
+		r.Seq("drain", drainScenario).Shard = true
 		depth := 4
 		if r.Thorough() {
 			depth = 6
